@@ -756,7 +756,7 @@ def run(tier, seed):
         "formulae.expr.*", "formulae.token.Token", "formulae.resolver.Resolver (only to decide rejection of candidate counterexamples)",
     ]
     if tier == "quick":
-        N, NP, L_full, L_multi = 5, 4, 3, 5
+        N, NP, L_full, L_multi = 5, 4, 3, 4
     else:
         N, NP, L_full, L_multi = 7, 5, 4, 7
     N = int(os.environ.get("C01_N", N))
